@@ -52,6 +52,12 @@ class FnCFG(object):
                 return self.elem_pos[cur]
             p = self.parent.get(cur)
             cur = p["id"] if p is not None else None
+        # a short-circuit condition / statement that is only a terminator: use its first evaluated sub-expression
+        node = self.idx.get(nid)
+        if node is not None:
+            for x in facts.walk(node):
+                if x["id"] in self.elem_pos:
+                    return self.elem_pos[x["id"]]
         return None
 
     def last_pos(self, node):
